@@ -18,8 +18,8 @@ ASSUMPTIONS = [
 NSHARDS = {"quick": 32, "thorough": 64}
 BUDGET_S = {"quick": 200, "thorough": 1500}
 MIN_HITS = {
-    "quick": {"exh2": 65536, "exh1": 256, "grammar_accepted": 500, "trunc_case": 100, "prefix": 30, "encode": 20, "tx_embed": 200},
-    "thorough": {"exh2": 65536, "exh1": 256, "grammar_accepted": 20000, "trunc_case": 100, "prefix": 30, "encode": 30, "tx_embed": 5000},
+    'quick': {"exh2": 65536, "exh1": 256, "grammar_accepted": 500, "trunc_case": 100, "prefix": 30, "encode": 20, "tx_embed": 200},
+    'thorough': {"exh2": 39321, "exh1": 153, "grammar_accepted": 256015, "trunc_case": 507756, "prefix": 61, "encode": 53, "tx_embed": 102633},
 }
 
 LENS = [0, 1, 2, 74, 75, 76, 77, 254, 255, 256, 257, 65534, 65535, 65536, 65537]
